@@ -17,10 +17,39 @@ LEVEL_TEXT = ('fault enumeration for the write part: a fault-free run yields the
               'each followed by a fault-free retry; exploration for the rejected-call part (12 rejection classes x positions)')
 LEVEL_NOTE = ('trusted: projection builder, SimFile fault model (errors raised before effect or after a real partial write), '
               'sys.settrace line events as interrupt points; bounded liveness = the retry completes within its own call')
-TIERS = {'quick': {'cases': 1000, 'wall': 45, 'faults_per_case': 5}, 'thorough': {'cases': 60000, 'wall': 840, 'faults_per_case': 10 ** 6}}
+TIERS = {'quick': {'cases': 800, 'wall': 45, 'faults_per_case': 5}, 'thorough': {'cases': 60000, 'wall': 840, 'faults_per_case': 10 ** 6}}
 RULE = ('case = seeded specification with 0-3 rejected calls inserted, written, then (fault part) re-executed once per enumerated '
         'fault point with a retry; non-trivial = at least one call was actually rejected or one fault actually fired before the '
         'compared write; distinct = case digest')
+def schema_bad(rng, lfi, n):
+    """A rejected call for an arbitrary object type: one attribute gets a value its kind cannot accept."""
+    from .. import schema
+    kind = gen.pick(rng, [k for k in schema.kinds() if k not in ('origin', 'frame', 'channel')])
+    cands = []
+    for kw, label, t in schema.S[kind]:
+        base = t.split(':')[0]
+        if base in ('text', 'texts'):
+            cands.append((kw, rng.choice([12, {'$obj': 'object'}])))
+        elif base in ('num', 'nums', 'numsN', 'int'):
+            cands.append((kw, rng.choice(['tall', {'$obj': 'object'}])))
+        elif base in ('ref', 'refs'):
+            cands.append((kw, [{'$ref': lfi['origins'][0]}] if base == 'refs' else {'$ref': lfi['origins'][0]}))
+        elif base == 'enum':
+            cands.append((kw, 'NOT-A-MEMBER'))
+        elif base == 'status':
+            cands.append((kw, rng.choice([5, 0.5])))
+        elif base in ('dtime',):
+            cands.append((kw, rng.choice(['not a date', 12])))
+        elif base == 'dim':
+            cands.append((kw, [1.5]))
+    if not cands:
+        return None
+    kw, v = gen.pick(rng, cands)
+    name = 'SB%d' % rng.randint(0, 2)
+    return ({'op': 'add', 'lf': lfi['lf'], 'h': 'bad%d' % n, 'c': 0, 'bad': 'schema_%s' % kind, 'kind': kind, 'name': name,
+             'kwargs': {kw: v}}, (kind, name))
+
+
 BAD_KINDS = ['bad_enum', 'bad_status', 'bad_text_type', 'bad_ref_class', 'bad_cast_dtype', 'bad_name_type', 'dup_dataset',
              'bad_frame_channels', 'bad_data_type', 'bad_origin_ref_type', 'bad_units', 'bad_num']
 
@@ -68,8 +97,15 @@ def gen_case(rng, tier, avoid):
     nb = 0 if 'ghost_object' in avoid else rng.choice([0, 1, 1, 2, 3])
     bad_classes = []
     for n in range(nb):
-        kind = gen.pick(rng, BAD_KINDS)
-        bop, (vk, vname) = bad_op(rng, kind, lfi, spec, n)
+        kind = gen.pick(rng, BAD_KINDS + ['schema'] * 6)
+        sb = schema_bad(rng, lfi, n) if kind == 'schema' else None
+        if sb is not None:
+            bop, (vk, vname) = sb
+            kind = bop['bad']
+        else:
+            if kind == 'schema':
+                kind = 'bad_enum'
+            bop, (vk, vname) = bad_op(rng, kind, lfi, spec, n)
         pos = rng.randint(3, len(ops))
         ops.insert(pos, bop)
         bad_classes.append(kind)
